@@ -74,7 +74,7 @@ impl Property for P {
                     via_logger,
                 };
                 let le = cfg.line_ending().len();
-                let ops = ops_strat(Some(n), mode.buffer_cap(), le, false, 40);
+                let ops = crate::hist::ops_strat_f(Some(n), mode.buffer_cap(), le, false, 40, !mode.is_async());
                 let is_async = mode.is_async();
                 (
                     Just(cfg),
